@@ -5,6 +5,7 @@ import (
 	"go/token"
 	"go/types"
 	"math/big"
+	"strings"
 
 	"golang.org/x/tools/go/ssa"
 )
@@ -1066,17 +1067,40 @@ func (fr *FnRun) fromUnsafe(st *State, v Val, to types.Type) Val {
 	return &PtrV{Nil: u.Of.Nil, Obj: u.Of.Obj, Path: u.Of.Path, Elem: pt.Elem(), }
 }
 
+func guardExempt(db *SpecDB, gk, fkey string) bool {
+	for _, e := range db.GuardExc[gk] {
+		if e != "" && strings.HasSuffix(fkey, e) {
+			return true
+		}
+	}
+	return false
+}
+
 // checkGuard: lock discipline.  An access to a field declared `guarded (T) f by m` must happen while
 // the mutex T.m of the same struct is held (ghost `held` of sync.Mutex, set by Lock, cleared by
 // Unlock).  All accesses being made under the lock is what excludes a data race on the field.
 func (fr *FnRun) checkGuard(st *State, in ssa.Instruction, addr ssa.Value, what string) {
-	ex := fr.ex
-	if len(ex.DB.Guarded) == 0 {
+	if len(fr.ex.DB.Guarded) == 0 {
 		return
 	}
-	fa, ok := addr.(*ssa.FieldAddr)
-	if !ok {
-		return
+	// the accessed location may lie inside a guarded field (v.guarded.sub[i]): walk up the address
+	for cur := addr; ; {
+		switch a := cur.(type) {
+		case *ssa.FieldAddr:
+			fr.checkGuardAt(st, in, a, what)
+			cur = a.X
+		case *ssa.IndexAddr:
+			cur = a.X
+		default:
+			return
+		}
+	}
+}
+
+func (fr *FnRun) checkGuardAt(st *State, in ssa.Instruction, fa *ssa.FieldAddr, what string) {
+	ex := fr.ex
+	if al, ok := fa.X.(*ssa.Alloc); ok && !al.Heap {
+		return // a struct in this function's own frame: not shared
 	}
 	pt, ok := fa.X.Type().Underlying().(*types.Pointer)
 	if !ok {
@@ -1086,12 +1110,30 @@ func (fr *FnRun) checkGuard(st *State, in ssa.Instruction, addr ssa.Value, what 
 	if !ok {
 		return
 	}
+	gk := TypeKey(pt.Elem()) + "." + fieldName(fa)
+	if guardExempt(ex.DB, gk, FuncKey(fr.fn)) || (in.Parent() != nil && guardExempt(ex.DB, gk, FuncKey(in.Parent()))) {
+		ex.Assumptions["accesses to guarded field "+gk+" in "+ShortKey(FuncKey(fr.fn))+" are exempt from the lock obligation (declared single-threaded by the contract file: not checked)"] = true
+		return
+	}
 	stt, ok := under(pt.Elem()).(*types.Struct)
 	if !ok {
 		return
 	}
 	base := fr.ptr(st, fa.X)
 	if base.Obj == nil {
+		// a guarded field reached through a pointer the executor cannot resolve: never let it pass
+		fr.oblige(st, "guard", fr.ordOf(in), tFalse, nil, what+" of "+fieldName(fa)+" through an unresolved pointer: cannot show that "+lock+" is held")
+		return
+	}
+	found := false
+	for i := 0; i < stt.NumFields(); i++ {
+		if stt.Field(i).Name() == lock {
+			found = true
+		}
+	}
+	if !found {
+		// the declared lock does not exist in the struct (anymore): the access is unprotected
+		fr.oblige(st, "guard", fr.ordOf(in), tFalse, nil, what+" of "+fieldName(fa)+" while "+lock+" is held (the struct has no field "+lock+")")
 		return
 	}
 	for i := 0; i < stt.NumFields(); i++ {
